@@ -170,7 +170,7 @@ func (e *Env) Run(id string, p *Package, seed uint64, maxLen int, compileOnly bo
 	imp := "qv/pkgs/" + id + "/" + p.Name
 	os.MkdirAll(filepath.Join(dir, p.Name), 0o755)
 	os.WriteFile(filepath.Join(dir, "package.idl"), []byte(p.Text()), 0o644)
-	src, err := Generate(p.Text(), imp)
+	src, err := Generate(p.Text(), p.GenPath)
 	if err != nil {
 		o.GenErr = firstLines(err.Error(), 2)
 		return o
